@@ -542,6 +542,8 @@ type RenderOpts struct {
 	Variant string // name of the variation
 	WS      bool   // insignificant white space around every token
 	Reverse bool   // reverse member order of every object
+	Nulls   bool   // add an explicit null for every absent member of every object
+	Raw     string // Variant "raw": replace the target node by this text; "addmember": add this member text to the target object
 	counter int
 	Applied bool
 }
@@ -565,7 +567,16 @@ func LeafVariants(v *Val) []string {
 	case KEnum:
 		return []string{"enum-prefixed"}
 	case KTimestamp:
-		return []string{"ts-+00:00", "ts-+05:30", "ts--08:00"}
+		// offsets that would push the local year outside 0000-9999 have no RFC 3339 spelling
+		out := []string{"ts-+00:00"}
+		t := time.Unix(v.Sec, int64(v.Nanos)).UTC()
+		if y := t.In(time.FixedZone("", 5*3600+1800)).Year(); y >= 0 && y <= 9999 {
+			out = append(out, "ts-+05:30")
+		}
+		if y := t.In(time.FixedZone("", -8*3600)).Year(); y >= 1 && y <= 9999 {
+			out = append(out, "ts--08:00")
+		}
+		return out
 	}
 	return nil
 }
@@ -645,6 +656,13 @@ func Render(sp *Spec, o *RenderOpts) string {
 }
 
 func render(sb *strings.Builder, sp *Spec, o *RenderOpts) {
+	idx := o.next()
+	isTarget := idx == o.Target
+	if isTarget && o.Variant == "raw" {
+		o.Applied = true
+		sb.WriteString(o.Raw)
+		return
+	}
 	ws := func() {
 		if o.WS {
 			sb.WriteString(" \n\t")
@@ -652,6 +670,10 @@ func render(sb *strings.Builder, sp *Spec, o *RenderOpts) {
 	}
 	mems := func(ms []SpecMem, pre []string) {
 		parts := append([]string{}, pre...)
+		if isTarget && o.Variant == "addmember" {
+			o.Applied = true
+			defer func() {}()
+		}
 		for _, m := range ms {
 			var b strings.Builder
 			if o.WS {
@@ -667,6 +689,12 @@ func render(sb *strings.Builder, sp *Spec, o *RenderOpts) {
 			}
 			render(&b, m.V, o)
 			parts = append(parts, b.String())
+		}
+		if isTarget && o.Variant == "addmember" {
+			parts = append(parts, o.Raw)
+		}
+		if o.Nulls && sp.T == SObj && sp.M != nil {
+			parts = append(parts, absentNulls(sp)...)
 		}
 		if o.Reverse {
 			for i, j := 0, len(parts)-1; i < j; i, j = i+1, j-1 {
@@ -711,9 +739,8 @@ func render(sb *strings.Builder, sp *Spec, o *RenderOpts) {
 		sb.WriteString("]")
 		ws()
 	case SLeaf:
-		idx := o.next()
 		variant := ""
-		if idx == o.Target {
+		if isTarget {
 			variant = o.Variant
 			o.Applied = true
 		}
@@ -721,6 +748,62 @@ func render(sb *strings.Builder, sp *Spec, o *RenderOpts) {
 		sb.WriteString(renderLeaf(sp.Leaf, variant, sp.F))
 		ws()
 	}
+}
+
+// absentNulls lists `"name":null` for every property of the object that the
+// document does not carry (flattened members are looked through).
+func absentNulls(sp *Spec) []string {
+	have := map[string]bool{}
+	for _, m := range sp.Mem {
+		have[m.K] = true
+	}
+	var out []string
+	var rec func(m *Message)
+	rec = func(m *Message) {
+		groups := map[string]bool{}
+		for _, f := range m.Fields {
+			if f.Kind == KFlatten {
+				rec(f.Msg)
+				continue
+			}
+			name := f.JSON
+			if f.Group != "" {
+				name = camel(f.Group)
+				if groups[name] {
+					continue
+				}
+				groups[name] = true
+			}
+			if !have[name] {
+				have[name] = true
+				out = append(out, quoteJSON(name)+":null")
+			}
+		}
+	}
+	rec(sp.M)
+	return out
+}
+
+// Nodes returns every node of a Spec in rendering (depth-first) order; the
+// index of a node is its RenderOpts.Target.
+func Nodes(sp *Spec) []*Spec {
+	var out []*Spec
+	var rec func(s *Spec)
+	rec = func(s *Spec) {
+		out = append(out, s)
+		switch s.T {
+		case SObj, SMap, SOneof:
+			for _, m := range s.Mem {
+				rec(m.V)
+			}
+		case SArr:
+			for _, e := range s.Arr {
+				rec(e)
+			}
+		}
+	}
+	rec(sp)
+	return out
 }
 
 // Leaves returns the leaves of a Spec in rendering order.
